@@ -188,24 +188,29 @@ def unforge_address(data: bytes) -> str:
     :returns: base58 encoded address
     """
     tz_prefixes = {
-        b'\x00\x00': b'tz1',
-        b'\x00\x01': b'tz2',
-        b'\x00\x02': b'tz3',
-        b'\x00\x03': b'tz4',
+        0: b'tz1',
+        1: b'tz2',
+        2: b'tz3',
+        3: b'tz4',
+    }
+    originated_prefixes = {
+        1: b'KT1',
+        2: b'txr1',
+        3: b'sr1',
     }
 
-    for bin_prefix, tz_prefix in tz_prefixes.items():
-        if data.startswith(bin_prefix):
-            return base58_encode(data[2:], tz_prefix).decode()
+    if len(data) == 21:
+        # key_hash: curve tag + 20-byte digest
+        if data[0] in tz_prefixes:
+            return base58_encode(data[1:], tz_prefixes[data[0]]).decode()
+    elif len(data) == 22:
+        # address: kind tag + (curve tag + digest | 20-byte hash + padding)
+        if data[0] == 0 and data[1] in tz_prefixes:
+            return base58_encode(data[2:], tz_prefixes[data[1]]).decode()
+        if data[0] in originated_prefixes and data[21] == 0:
+            return base58_encode(data[1:-1], originated_prefixes[data[0]]).decode()
 
-    if data.startswith(b'\x01') and data.endswith(b'\x00'):
-        return base58_encode(data[1:-1], b'KT1').decode()
-    elif data.startswith(b'\x02') and data.endswith(b'\x00'):
-        return base58_encode(data[1:-1], b'txr1').decode()
-    elif data.startswith(b'\x03') and data.endswith(b'\x00'):
-        return base58_encode(data[1:-1], b'sr1').decode()
-    else:
-        return base58_encode(data[1:], tz_prefixes[b'\x00' + data[:1]]).decode()
+    raise ValueError(f'Can\'t unforge address: unexpected data `{data.hex()}`')
 
 
 def forge_contract(value: str) -> bytes:
